@@ -42,9 +42,14 @@ def check(run):
     pl = [dict(threads=4, ops=30, rounds=20 if q else 300, seed=run.seed, hasnew=True, log=True),
           dict(threads=4, ops=30, rounds=10 if q else 150, seed=run.seed + 3, hasnew=False, log=True)]
     pool = split_segments(run_driver(run, "pool-stress", pl), reset_key="ev", reset_val="reset")
+    pool += split_segments(run_driver(run, "pool-holders", [dict(threads=64, ops=400, rounds=20 if q else 300, seed=run.seed, hasnew=True),
+                                                            dict(threads=64, ops=400, rounds=10 if q else 150, seed=run.seed + 1, hasnew=False)]),
+                           reset_key="ev", reset_val="reset")
     validate(run, "atomics", "PoolAbsTrace", {}, pool, [], plans=None, label="pool")
     _, praces = run_race(run, "pool-stress", [dict(threads=6, ops=200, rounds=4 if q else 30, seed=run.seed, hasnew=True, log=False),
                                               dict(threads=6, ops=200, rounds=2 if q else 15, seed=run.seed, hasnew=False, log=False)])
+    _, praces2 = run_race(run, "pool-holders", [dict(threads=48, ops=150, rounds=3 if q else 20, seed=run.seed, hasnew=True)])
+    praces = praces + praces2
     for rp in praces:
         race_rejection(run, "pool-stress", rp)
     for r in run.rejections:
